@@ -201,6 +201,205 @@ def emitAnalysis {Plan : Type} (caps : Caps) (c : Counts) (rootSpan : Span) (pla
   | some _ => { plan := none, warnings := [limitWarning rootSpan] }
   | none => { plan := some planOf, warnings := passWarnings }
 
+/-! ### The event accounting of the interprocedural summary fixpoint (`src/analysis/summary.rs`)
+
+`max_summary_events` is the budget of `compute_summaries_with_max_events`: every element pushed
+onto one of a function's three transitive lists and every change of its transitive class costs one
+event (`SummaryBudget::note_event`); when the budget is used up the component being summarised and
+every component scheduled after it become "summary unavailable".  The preflight bound
+`summaryBound f l = f·(f + 2l + 2)` is what makes that fallback unreachable below the limits
+(`Props/C18.lean`, section "summary events").
+
+Modelled: `push_unique_bounded`, `extend_unique`, `summarize_component` (the `while changed` loop
+with a fuel argument), `mark_component_unavailable`, the component loop of
+`compute_summaries_with_max_events` with ONE budget (`runGlobal`).  The list of components and
+their order (Kosaraju + topological order in the code) is an *input* of the model: the accounting
+theorems hold for every list of components.  `runSplit` is the design the accounting does NOT
+support (an equal share per component, continue after a failure); it is refuted by a decided
+counterexample.  This part of the model is not linked to the implementation through the `limits`
+line protocol; its tie is the harness oracle "with a budget of exactly f·(f+2l+2) events every
+summary is available" on every generated program (`harness/src/limits.rs`). -/
+namespace Summary
+
+/-- `FunctionSummary`, reduced to what the accounting reads and writes.  Class levels: 0
+`PureNoTrap`, 1 `PureMayTrap`, 2 `Impure`; `ExprClass::join` is `max`. -/
+structure Summ where
+  available : Bool
+  /-- `transitive_callees` (function ids) -/
+  callees : List Nat
+  /-- `transitive_capture_reads` (local ids) -/
+  reads : List Nat
+  /-- `transitive_capture_writes` (local ids) -/
+  writes : List Nat
+  /-- `body_class` -/
+  body : Nat
+  /-- `transitive_class` -/
+  cls : Nat
+deriving DecidableEq, Repr, Inhabited
+
+/-- Why `summarize_component` stops early.  `budget` and `unavailable` are both
+`Err(BudgetExceeded)` in the code (the budget ran out / a callee's summary is unavailable);
+`index` is a slice index out of bounds, a panic (function ids not below the number of functions). -/
+inductive Fail where
+  | budget | unavailable | index
+deriving DecidableEq, Repr, Inhabited
+
+/-- `SummaryBudget::note_event`. -/
+def noteEvent : Nat → Except Fail Nat
+  | 0 => .error .budget
+  | b + 1 => .ok b
+
+/-- `push_unique_bounded`: (list, changed, remaining budget). -/
+def pushUnique (dst : List Nat) (x b : Nat) : Except Fail (List Nat × Bool × Nat) :=
+  if x ∈ dst then .ok (dst, false, b)
+  else
+    match noteEvent b with
+    | .error e => .error e
+    | .ok b' => .ok (dst ++ [x], true, b')
+
+/-- `extend_unique`. -/
+def extendUnique (dst : List Nat) : List Nat → Nat → Except Fail (List Nat × Bool × Nat)
+  | [], b => .ok (dst, false, b)
+  | x :: xs, b =>
+    match pushUnique dst x b with
+    | .error e => .error e
+    | .ok (dst', ch, b') =>
+      match extendUnique dst' xs b' with
+      | .error e => .error e
+      | .ok (dst'', ch', b'') => .ok (dst'', ch || ch', b'')
+
+/-- One iteration of the callee loop of `summarize_component`: the caller's three lists absorb the
+callee's.  (The class join is taken separately: it reads the callee only.) -/
+def absorb (self callee : Summ) (b : Nat) : Except Fail (Summ × Bool × Nat) :=
+  if !callee.available then .error .unavailable
+  else
+    match extendUnique self.callees callee.callees b with
+    | .error e => .error e
+    | .ok (cs, c1, b1) =>
+      match extendUnique self.reads callee.reads b1 with
+      | .error e => .error e
+      | .ok (rs, c2, b2) =>
+        match extendUnique self.writes callee.writes b2 with
+        | .error e => .error e
+        | .ok (ws, c3, b3) =>
+          .ok ({ self with callees := cs, reads := rs, writes := ws }, c1 || c2 || c3, b3)
+
+/-- The callee loop over the (snapshot of the) callees' summaries: while one function is processed
+only its own summary is written (`split_summary_pair`; the self call is skipped). -/
+def absorbAll (self : Summ) : List Summ → Nat → Except Fail (Summ × Bool × Nat)
+  | [], b => .ok (self, false, b)
+  | c :: cs, b =>
+    match absorb self c b with
+    | .error e => .error e
+    | .ok (s', ch, b') =>
+      match absorbAll s' cs b' with
+      | .error e => .error e
+      | .ok (s'', ch', b'') => .ok (s'', ch || ch', b'')
+
+/-- `body_class` joined with the callees' transitive classes. -/
+def joinCls (body : Nat) (cs : List Summ) : Nat := cs.foldl (fun a c => max a c.cls) body
+
+/-- The body of the `for &function in component` loop for one function, given its callees'
+summaries. -/
+def summFn (self : Summ) (cs : List Summ) (b : Nat) : Except Fail (Summ × Bool × Nat) :=
+  match absorbAll self cs b with
+  | .error e => .error e
+  | .ok (s', ch, b') =>
+    let tc := joinCls s'.body cs
+    if s'.cls = tc then .ok (s', ch, b')
+    else
+      match noteEvent b' with
+      | .error e => .error e
+      | .ok b'' => .ok ({ s' with cls := tc }, true, b'')
+
+/-- `summaries[callee]` for a list of callees (`none`: index out of bounds, a panic). -/
+def lookupAll (st : List Summ) : List Nat → Option (List Summ)
+  | [] => some []
+  | c :: cs =>
+    match st[c]?, lookupAll st cs with
+    | some s, some ss => some (s :: ss)
+    | _, _ => none
+
+/-- The summaries of the direct callees other than the function itself (`callee == function`
+is skipped). -/
+def calleeSumms (st : List Summ) (direct : List Nat) (f : Nat) : Option (List Summ) :=
+  lookupAll st (direct.filter (· != f))
+
+/-- One sweep over the component.  `g[f]` = `facts.function_direct(f).direct_callees`. -/
+def sweep (g : List (List Nat)) : List Nat → List Summ → Bool → Nat →
+    Except Fail (List Summ × Bool × Nat)
+  | [], st, changed, b => .ok (st, changed, b)
+  | f :: rest, st, changed, b =>
+    match g[f]?, st[f]? with
+    | some direct, some self =>
+      match calleeSumms st direct f with
+      | none => .error .index
+      | some cs =>
+        match summFn self cs b with
+        | .error e => .error e
+        | .ok (s', ch, b') => sweep g rest (st.set f s') (changed || ch) b'
+    | _, _ => .error .index
+
+/-- `summarize_component`: sweeps until nothing changes.  The last component of the result says
+whether the loop ended by itself (`true`) or the fuel ran out first (`false`; with
+`fuel > remaining budget` it cannot, every changing sweep costs an event). -/
+def summarizeComponent (g : List (List Nat)) (comp : List Nat) :
+    Nat → List Summ → Nat → Except Fail (List Summ × Nat × Bool)
+  | 0, st, b => .ok (st, b, false)
+  | fuel + 1, st, b =>
+    match sweep g comp st false b with
+    | .error e => .error e
+    | .ok (st', ch, b') => if ch then summarizeComponent g comp fuel st' b' else .ok (st', b', true)
+
+/-- `mark_component_unavailable`. -/
+def markUnavailable (comp : List Nat) (st : List Summ) : List Summ :=
+  comp.foldl (fun st f =>
+    match st[f]? with
+    | some s => st.set f { s with available := false, callees := [], reads := [], writes := [], cls := 2 }
+    | none => st) st
+
+/-- The component loop of `compute_summaries_with_max_events`: ONE budget for the whole fixpoint;
+the first failure makes the failing component and everything scheduled after it unavailable.
+(The code marks on the partially updated summaries; only members of the failing component were
+written since the last success and those are exactly the ones being reset.) -/
+def runGlobal (g : List (List Nat)) (fuel : Nat) : List (List Nat) → List Summ → Nat →
+    Except Fail (List Summ)
+  | [], st, _ => .ok st
+  | comp :: rest, st, b =>
+    match summarizeComponent g comp fuel st b with
+    | .ok (st', b', _) => runGlobal g fuel rest st' b'
+    | .error .index => .error .index
+    | .error _ => .ok ((comp :: rest).foldl (fun st c => markUnavailable c st) st)
+
+/-- The per-component events of a run with one budget (what each component consumed), for as long
+as nothing fails. -/
+def eventsPerComponent (g : List (List Nat)) (fuel : Nat) : List (List Nat) → List Summ → Nat → List Nat
+  | [], _, _ => []
+  | comp :: rest, st, b =>
+    match summarizeComponent g comp fuel st b with
+    | .ok (st', b', _) => (b - b') :: eventsPerComponent g fuel rest st' b'
+    | .error _ => []
+
+/-- NOT the code: the same loop with an equal share of the budget for every component, continuing
+after a failure (only the failing component is reset).  `Props/C18.lean` shows a program below
+every limit that this design leaves with unavailable summaries. -/
+def runSplit (g : List (List Nat)) (fuel share : Nat) : List (List Nat) → List Summ →
+    Except Fail (List Summ)
+  | [], st => .ok st
+  | comp :: rest, st =>
+    match summarizeComponent g comp fuel st share with
+    | .ok (st', _, _) => runSplit g fuel share rest st'
+    | .error .index => .error .index
+    | .error _ => runSplit g fuel share rest (markUnavailable comp st)
+
+/-- `initialize_summaries` from the direct facts of every function:
+(direct callees, direct capture reads, direct capture writes, body class). -/
+def initial (directs : List (List Nat × List Nat × List Nat × Nat)) : List Summ :=
+  directs.map fun (cs, rs, ws, body) =>
+    { available := true, callees := cs, reads := rs, writes := ws, body := body, cls := body }
+
+end Summary
+
 /-- Canonical text of a limit decision in the line protocol. -/
 def Limit.str : Option Limit → String
   | none => "none"
